@@ -80,6 +80,8 @@ struct SendHalf {
     state: SState,
     stop: Option<u64>,
     written: u64,
+    /// stream-level credit (never extended in the small-window variants: the receiver does not read)
+    limit: Option<u64>,
     finished_event: u32,
     stopped_event: u32,
 }
@@ -121,7 +123,7 @@ enum Fb {
 impl Half {
     fn new() -> Self {
         Self {
-            s: SendHalf { exists: false, state: SState::Ready, stop: None, written: 0, finished_event: 0, stopped_event: 0 },
+            s: SendHalf { exists: false, state: SState::Ready, stop: None, written: 0, limit: None, finished_event: 0, stopped_event: 0 },
             r: RecvHalf { seen: false, known: Sent::default(), read: 0, stopped: false, stop_announced: false, removed: false },
             fb: vec![],
         }
@@ -205,8 +207,14 @@ impl Model {
                 } else if let Some(c) = s.stop {
                     Ret::Stopped(c)
                 } else {
-                    s.written += 3;
-                    Ret::OkN(3)
+                    // a stop is reported whatever the credit situation (above); then credit
+                    let room = s.limit.map_or(3, |l| l.saturating_sub(s.written).min(3));
+                    if room == 0 {
+                        Ret::Blocked
+                    } else {
+                        s.written += room;
+                        Ret::OkN(room)
+                    }
                 }
             }
             Op::Finish | Op::BFinish => {
@@ -514,6 +522,9 @@ pub struct Variant {
     /// the sender, 3 = reset by the sender and the reset read, 4 (bidi) = like 1 for the reverse
     /// half as well
     pub prelude: u8,
+    /// stream receive window of both peers in bytes (None = large): with a small window and a
+    /// receiver that never reads, writes run into the stream flow-control limit
+    pub window: Option<u64>,
 }
 
 pub struct Out {
@@ -525,6 +536,10 @@ pub fn run_seq(base: Instant, v: &Variant, seq: &[Op], verbose: bool) -> Result<
     guarded(|| {
         let mut cfg = cfg_by_name("default");
         cfg.latency = Duration::ZERO;
+        if let Some(w) = v.window {
+            cfg.client.stream_recv_window = Some(w);
+            cfg.server.stream_recv_window = Some(w);
+        }
         let mut p: RPair = Pair::new(base, &cfg, Recorder { events: vec![] }, Box::new(|_, _| Recorder { events: vec![] }));
         let mut g = 0;
         while g < 400 {
@@ -632,6 +647,8 @@ pub fn run_seq(base: Instant, v: &Variant, seq: &[Op], verbose: bool) -> Result<
         };
         let idn = sid_u64(id);
         let mut m = Model::new(v.bidi);
+        m.fwd.s.limit = v.window;
+        m.rev.s.limit = v.window;
         let mut viol = vec![];
         let mut hash = std::collections::hash_map::DefaultHasher::new();
         use std::hash::{Hash, Hasher};
@@ -894,25 +911,42 @@ pub fn main(args: &Args) -> ! {
     let thorough = args.tier == Tier::Thorough;
     let dl = deadline(if thorough { 1500 } else { 50 });
     let (du, db) = if thorough { (6, 5) } else { (5, 4) };
-    rep.rule = format!("Explicit enumeration of every operation sequence of length {du} (unidirectional stream) / {db} (bidirectional stream) after open(), over the alphabets {:?} / {:?}, for both initiators, executed on a real established connection pair with a zero-latency link whose two directions are flushed only by the explicit network operations AB / BA (so acknowledgements and STOP_SENDING can be withheld). After EVERY operation the real return value must equal the reference model's (write/finish/reset/stopped/set_priority/accept/read/stop/received_reset), the set of StreamEvents emitted must equal the model's (Finished, Stopped, Opened exact; Readable never spurious), and remote_open_streams() must change exactly when both halves of the remote stream are terminal. States = distinct (return value, event) traces; transitions = operations compared.", OPS_UNI, OPS_BI);
+    rep.rule = format!("Explicit enumeration of every operation sequence of length {du} (unidirectional stream) / {db} (bidirectional stream) after open(), over the alphabets {:?} / {:?}, for both initiators, executed on a real established connection pair with a zero-latency link whose two directions are flushed only by the explicit network operations AB / BA (so acknowledgements and STOP_SENDING can be withheld). After EVERY operation the real return value must equal the reference model's (write/finish/reset/stopped/set_priority/accept/read/stop/received_reset), the set of StreamEvents emitted must equal the model's (Finished, Stopped, Opened exact; Readable never spurious), and remote_open_streams() must change exactly when both halves of the remote stream are terminal. Variants: a previous stream of the same kind lived and died in one of four ways before (recycled state); a 4-byte stream window with a receiver that never reads (writes run into the flow-control limit: whole, partial, Blocked - and Stopped takes precedence). States = distinct (return value, event) traces; transitions = operations compared.", OPS_UNI, OPS_BI);
     let mut tasks: Vec<(usize, Vec<Op>)> = vec![];
     let mut variants = vec![
-        Variant { a_is_client: true, bidi: false, prelude: 0 },
-        Variant { a_is_client: false, bidi: false, prelude: 0 },
-        Variant { a_is_client: true, bidi: true, prelude: 0 },
-        Variant { a_is_client: false, bidi: true, prelude: 0 },
+        Variant { a_is_client: true, bidi: false, prelude: 0, window: None },
+        Variant { a_is_client: false, bidi: false, prelude: 0, window: None },
+        Variant { a_is_client: true, bidi: true, prelude: 0, window: None },
+        Variant { a_is_client: false, bidi: true, prelude: 0, window: None },
     ];
     // the stream under test is the second of its kind: the first one ended in a way that leaves
     // its recycled state "dirty" (stopped, reset, unread)
     for bidi in [false, true] {
         for a_is_client in [true, false] {
             for prelude in 1..=(if bidi { 4 } else { 3 }) {
-                variants.push(Variant { a_is_client, bidi, prelude });
+                variants.push(Variant { a_is_client, bidi, prelude, window: None });
             }
         }
     }
+    // writes that run into the stream flow-control limit: a 4-byte stream window (one whole write,
+    // one partial, then none) and a receiver that never reads, so no credit ever comes
+    for bidi in [false, true] {
+        for a_is_client in [true, false] {
+            // (quick tier: unidirectional only; the sending half is the same code in both kinds)
+            if thorough || !bidi {
+                variants.push(Variant { a_is_client, bidi, prelude: 0, window: Some(4) });
+            }
+        }
+    }
+    let ops_uni_nr: Vec<Op> = OPS_UNI.iter().copied().filter(|o| !matches!(o, Op::Read3 | Op::ReadAll)).collect();
+    let ops_bi_nr: Vec<Op> = OPS_BI.iter().copied().filter(|o| !matches!(o, Op::Read3 | Op::ReadAll | Op::ARead)).collect();
     for (vi, v) in variants.iter().enumerate() {
-        let (ops, mut d): (&[Op], usize) = if v.bidi { (&OPS_BI, db) } else { (&OPS_UNI, du) };
+        let (ops, mut d): (&[Op], usize) = match (v.bidi, v.window.is_some()) {
+            (true, false) => (&OPS_BI, db),
+            (false, false) => (&OPS_UNI, du),
+            (true, true) => (&ops_bi_nr, db),
+            (false, true) => (&ops_uni_nr, du),
+        };
         // quick tier: the server-initiated variants run one level shallower
         if !thorough && !v.a_is_client {
             d -= 1;
@@ -932,7 +966,7 @@ pub fn main(args: &Args) -> ! {
         rep.evaluations += 1;
         rep.transitions += s.len() as u64;
         let v = &variants[*vi];
-        let rj = json!({"check":"c11","a_is_client":v.a_is_client,"bidi":v.bidi,"prelude":v.prelude,"seq":s.iter().map(|o| format!("{o:?}")).collect::<Vec<_>>()});
+        let rj = json!({"check":"c11","a_is_client":v.a_is_client,"bidi":v.bidi,"prelude":v.prelude,"window":v.window,"seq":s.iter().map(|o| format!("{o:?}")).collect::<Vec<_>>()});
         match r {
             Err(e) => rep.violation(Violation { signature: "panic".into(), what: format!("initiator={} bidi={} previous-stream-life={} seq={s:?}: panic: {e}", if v.a_is_client { "client" } else { "server" }, v.bidi, v.prelude), replay: rj }),
             Ok(o) => {
@@ -1026,7 +1060,7 @@ fn replay(args: &Args) -> ! {
     }
     let v: Value = serde_json::from_str(&std::fs::read_to_string(path).unwrap_or_else(|e| machinery(&format!("{e}")))).unwrap_or_else(|e| machinery(&format!("{e}")));
     let r = &v["replay"];
-    let var = Variant { a_is_client: r["a_is_client"].as_bool().unwrap_or(true), bidi: r["bidi"].as_bool().unwrap_or(false), prelude: r["prelude"].as_u64().unwrap_or(0) as u8 };
+    let var = Variant { a_is_client: r["a_is_client"].as_bool().unwrap_or(true), bidi: r["bidi"].as_bool().unwrap_or(false), prelude: r["prelude"].as_u64().unwrap_or(0) as u8, window: r["window"].as_u64() };
     let all: Vec<Op> = OPS_BI.to_vec();
     let seq: Vec<Op> = r["seq"].as_array().unwrap().iter().map(|s| *all.iter().find(|o| format!("{o:?}") == s.as_str().unwrap()).unwrap()).collect();
     match run_seq(Instant::now(), &var, &seq, true) {
